@@ -31,6 +31,7 @@ def eng_state(gwy) -> str:
         bool(gwy.config.disable_discovery),
         bool(t.is_reading()) if t else None,
         bool(getattr(p, "_pause_writing", False)),
+        bool(gwy._engine_lock.locked()),
     ))
 
 
@@ -160,7 +161,39 @@ async def episode(loop, history, eavesdrop, checkpoints, faults, rnd) -> dict:
                 ops.append("restore:raise")     # allowed by the property ("whether or not the operation itself succeeded")
                 out.setdefault("restore_raised", []).append(repr(e).split("(")[0])
             out["engine"].append((i, "restore", before, eng_state(gwy)))
-        out["model_ops"].append((before, ops, eng_state(gwy)))
+        # --- a restore during which a state-saver keeps asking for snapshots (each must be refused, nothing may change)
+        extra = ""
+        if fault == "nested" and pkts is not None and eng_state(gwy) == before:
+            taken, refused, other = 0, 0, []
+            done = False
+
+            async def saver():
+                nonlocal taken, refused
+                while not done:
+                    try:
+                        gwy.get_state()
+                        taken += 1
+                    except RuntimeError:
+                        refused += 1
+                    except Exception as e:  # noqa: BLE001
+                        other.append(repr(e))
+                    await asyncio.sleep(0)
+
+            st = asyncio.ensure_future(saver())
+            try:
+                await gwy._restore_cached_packets(dict(pkts))
+                r = "ok"
+            except Exception as e:  # noqa: BLE001
+                r = "raise"
+                out.setdefault("restore_raised", []).append(repr(e).split("(")[0])
+            done = True
+            await st
+            ops.append(f"nested:{refused}:{r}")
+            extra = f"\tRamses.Eng.Res.{'ok' if r == 'ok' else 'raised'}/{refused}/{refused}"
+            out["engine"].append((i, f"restore with {refused} refused + {taken} granted snapshot attempts inside", before, eng_state(gwy)))
+            if other:
+                out["op_errors"].append((i, "get_state() during a restore", other[0]))
+        out["model_ops"].append((before, ops, eng_state(gwy) + extra))
         # --- is a packet received after the operation still handled?  can we still send?
         seen.clear()
         await rig.feed(f" I --- {PROBE_SRC} --:------ {PROBE_SRC} 1F09 003 FF0514")
@@ -224,6 +257,8 @@ def run(chk: Check) -> None:
                 faults[c] = "filter"
             elif r < 0.3:
                 faults[c] = "restore"
+            elif r < 0.5:
+                faults[c] = "nested"
         eav = rnd.random() < 0.5
 
         async def body(loop, h=h, eav=eav, cps=cps, faults=faults):
@@ -249,7 +284,7 @@ def run(chk: Check) -> None:
         for i, what, before, after in res["engine"]:
             if before != after:
                 chk.violation(f"c13.engine_changed:{what.split('(')[0]}", f"after packet {i}: {what} left the engine as {after}, was {before} "
-                              "(not-paused|handler|disable_sending|disable_discovery|reading|write-paused)", {**rep, "at": i})
+                              "(not-paused|handler|disable_sending|disable_discovery|reading|write-paused|lock-held)", {**rep, "at": i})
                 break
         for i, ok in res["handled"]:
             if not ok:
@@ -268,7 +303,7 @@ def run(chk: Check) -> None:
             impl.append("ok\t" + after)
             meta.append(rep)
             for o in ops:
-                chk.count("op." + o)
+                chk.count("op." + (o if not o.startswith("nested") else "nested:k:" + o.split(":")[2]))
     outs = Model().run(reqs)
     for r, a, b, m in zip(reqs, impl, outs, meta):
         if a != b:
